@@ -230,6 +230,31 @@ int main(int argc, char** argv) {
         }
       }
     }
+    // (2b) hostile solution files through NLSolver::ReadSolution (its own handler un-permutes and sizes the vectors): suffix indices at and
+    //      beyond the item count, negative ones, wrong sizes, truncation - never a memory error (ASan/UBSan are the oracle of this step)
+    if (perm_ok && bad.empty()) {
+      sg::Sol hs; hs.msg = {"hostile"}; hs.options = {1, 1, 0}; hs.ncons = g.m; hs.nvars = g.n; hs.objno = 0; hs.code = 0;
+      for (int k = 0; k < g.n; ++k) hs.primals.push_back(k + 0.5); for (int i = 0; i < g.m; ++i) hs.duals.push_back(i + 0.25);
+      static const int offs[] = {0, 1, -1, 2, 1000000, -1000000};
+      int nsuf = r.range(1, 3);
+      for (int q = 0; q < nsuf; ++q) {
+        sg::Suf hf; hf.kind = (int)r.below(4) | (r.chance(1, 2) ? 4 : 0); hf.name = "h" + std::to_string(q);
+        int cnt = (hf.kind & 3) == 0 ? g.n : (hf.kind & 3) == 1 ? g.m : 1;
+        int idx = r.chance(2, 3) ? cnt + offs[r.below(6)] : (cnt ? (int)r.below(cnt) : 0);
+        if (r.chance(1, 6)) idx = (hf.kind & 3) == 0 ? cnt : idx;            // the first index past the end is the classic one
+        hf.vals.push_back({idx, 7.0}); if (cnt > 0 && r.chance(1, 2)) hf.vals.push_back({(int)r.below(cnt), 3.0});
+        hs.sufs.push_back(hf);
+      }
+      std::string hb = sg::encode_text(hs);
+      int mut = (int)r.below(5);
+      if (mut == 1 && hb.size() > 8) hb.resize(r.range(1, (int)hb.size() - 1));                                    // truncated
+      if (mut == 2) { hs.nvars = g.n + r.range(1, 3); hb = sg::encode_text(hs); }                                  // declares other sizes
+      if (mut == 3 && !hb.empty()) for (int q = r.range(1, 4); q--;) hb[r.below(hb.size())] = (char)r.range(1, 255);   // byte noise
+      sg::write_file(stub + ".sol", hb);
+      mp::NLSolution hsol = solver.ReadSolution();
+      (void)hsol;     // judged by the sanitizers only: the statement promises nothing about the content returned for a malformed file
+      unlink((stub + ".sol").c_str());
+    }
     // (3) the C interface (nl-model-c / nl-solver-c) is a thin wrapper: the same model given through it must write the same files and
     //     return the same solution as the C++ interface
     bool c_api = false;
